@@ -208,7 +208,10 @@ ISAS = [
     isa.IsaCfg("6502/65C02", "Isa6502_Gen", [("6502", "6502"), ("65SC02", "65SC02"), ("65C02", "65C02"),
                                              ("W65C02S", "W65C02S")], quick=["6502", "W65C02S"],
                seq_only=[("MELPS740", "MELPS740")]),
-    isa.IsaCfg("PIC16C8x", "IsaPic16_Gen", [("16C84", "16C84")], unit_bytes=2),
+    # DEVICE dimension (spec/IsaPic16.tla): 1 K / 2 K single-page devices, 4 K = 2 pages, 8 K = 4 pages
+    isa.IsaCfg("PIC16C8x", "IsaPic16_Gen", [("16C84", "16C84"), ("16C64", "16C64"), ("16C873", "16C873"),
+                                             ("16C874", "16C874"), ("16C876", "16C876"), ("16C877", "16C877")],
+               unit_bytes=2, quick=["16C84", "16C877"]),
     isa.IsaCfg("AVR", "IsaAvr_Gen", [("AT90S8515", "AT90S8515"), ("ATMEGA128", "ATMEGA128")], unit_bytes=2,
                quick=["ATMEGA128"]),
     isa.IsaCfg("Z80", "IsaZ80_Gen", [("Z80", "Z80")]),
@@ -269,6 +272,9 @@ def zone_text(case):
 def judge(rep, cfg, cpu, case, src, line, rc, em, errs, sig=None, timeout=False, out=""):
     """em: units emitted for the statement's line (list), errs: error numbers reported on that line."""
     exp = case["exp"]
+    if em and em != case["units"] and em in case.get("alts", ()):
+        # TLC printed more than one admissible encoding of this statement (checks/ext_isavar.py): the emitted one is among them
+        case = dict(case, units=em)
     stmt = isa.stmt_text(case).strip()
     at = (" at %d" % case["pc"]) if case["pc"] >= 0 else ""
     if case.get("prev"):
@@ -335,11 +341,12 @@ def _observe(bld, cfg, res, ln):
 
 def _fine(case, em, errs, rc):
     """same decision as judge(), without reporting (used to pre-screen batched statements)"""
+    good = em == case["units"] or (bool(em) and em in case.get("alts", ()))
     if case["exp"] == "units":
-        return not errs and em == case["units"]
+        return not errs and good
     if case["exp"] == "reject":
         return not em and bool(errs)
-    return (not em and bool(errs)) or (not errs and em == case["units"])
+    return (not em and bool(errs)) or (not errs and good)
 
 
 def _many(bld, jobs):
@@ -389,10 +396,11 @@ def replay_cpu(rep, bld, cfg, cpu, aslcpu, cases, srcmod=isa):
                 got = isa.code_units(res, cfg)
                 want = []
                 addr = 0
-                for c in g:
+                for i, c in enumerate(g):
                     if c["pc"] >= 0:
                         addr = c["pc"]
-                    for u in c["units"]:
+                    # (a statement with several admissible encodings: the one reported for its line, checked above)
+                    for u in (em.get(where[i], []) if c.get("alts") else c["units"]):
                         want.append((addr, u))
                         addr += cfg.addr_step
                 if got is None or got != want:
@@ -714,6 +722,9 @@ def main(tier):
                         "undocumented opcodes/aliases accepted by asl beyond the manufacturer's set are not judged",
                         "hooks: %s" % ("emit/diag events per line + code file" if bld.hooks else
                                        "unavailable: one statement per run, code file only")]
+    __import__("checks.ext_isa8051", fromlist=["run"]).run(rep, bld, tier)      # phase "isa8051": Intel MCS-51 table (spec/Isa8051*.tla)
+    __import__("checks.ext_isa6809", fromlist=["run"]).run(rep, bld, tier)      # phase "isa6809": Motorola MC6809 table (spec/Isa6809*.tla)
+    __import__("checks.ext_isavar", fromlist=["run"]).run(rep, bld, tier)       # phase "isavar": device / page variants, src = dst emulated forms, BIT symbols (spec/IsaPic16P IsaMsp430E IsaAvrBit)
     return rep.finish(
         rule="cases = every leaf of the Isa*_Gen graph: every form of the table (8080/8085: in Intel syntax, in Z80 "
              "syntax mixed with it (Z80SYNTAX ON) and in Z80 syntax alone (EXCLUSIVE)) x operand classes {0, 1, limits, "
